@@ -173,16 +173,21 @@ func buildShiftMatchingPredicate(sw swamp.Swamp, beaconType swamp.BeaconType, fi
 	// Filter present — plan it.
 	plan := PlanFilter(filters)
 	filterEval := filters
+	// useKeySet, not keySet != nil, decides whether candidates restrict the
+	// selection: an indexable leg that matches nothing yields a nil set and
+	// must select nothing.
 	var keySet map[string]struct{}
+	useKeySet := false
 	if plan.Mode != PlanModeBypass {
 		candidates := collectBucketCandidates(sw, plan.Hints)
 		keySet = candidateKeySet(candidates)
 		filterEval = plan.Residual
+		useKeySet = true
 	}
 
 	if !hasTimeBounds {
 		return func(t treasure.Treasure) bool {
-			if keySet != nil {
+			if useKeySet {
 				if _, in := keySet[t.GetKey()]; !in {
 					return false
 				}
@@ -195,7 +200,7 @@ func buildShiftMatchingPredicate(sw swamp.Swamp, beaconType swamp.BeaconType, fi
 		if !inTimeRange(getTs(t), fromNano, toNano) {
 			return false
 		}
-		if keySet != nil {
+		if useKeySet {
 			if _, in := keySet[t.GetKey()]; !in {
 				return false
 			}
